@@ -120,6 +120,9 @@ def _scenario(args):
             paths = {'out': os.path.join(cwd, outname), 'lab': os.path.join(cwd, 'out.lab'), 'hex': os.path.join(cwd, outname + '.hex')}
             prewritten = {fkey: OLD[fkey] for fkey in sc['pre']}
             for fkey in sc['pre']:
+                if t == 'hex-isdir' and fkey == 'hex':
+                    os.makedirs(paths['hex'])          # <output>.hex exists and is a directory
+                    continue
                 with open(paths[fkey], 'wb') as f:
                     f.write(OLD[fkey])
             argv = [['../nothere.asm' if t == 'missing-input' else (main if rng.random() < 0.5 else '../main.asm')]]
@@ -149,7 +152,7 @@ def _scenario(args):
                 elif t == 'hex-toolarge':
                     argv += [['--hex-offset', rng.choice(['0xfffffffe', '0x100000000', '4294967295', '0xfffffffd'])]]
                 else:
-                    offset = rng.choice([0, 0x08000000, 0x20000000, 0xfffe, 0x0800fff0, 0xffff0000, 7])
+                    offset = rng.choice([0, 0, 0x08000000, 0x20000000, 0xfffe, 0x0800fff0, 0xffff0000, 7])
                     argv += [['--hex-offset', rng.choice([hex(offset), str(offset)])]]
             rng.shuffle(argv)
             argv = [x for g in argv for x in g]
@@ -173,7 +176,7 @@ def _scenario(args):
                 if not os.path.exists(p):
                     state[fkey] = 'absent'
                 else:
-                    state[fkey] = 'old' if open(p, 'rb').read() == prewritten.get(fkey) else 'new'
+                    state[fkey] = 'old' if (os.path.isdir(p) and not os.listdir(p)) or (os.path.isfile(p) and open(p, 'rb').read() == prewritten.get(fkey)) else 'new'
             # stray files
             known = {os.path.basename(p) for p in paths.values() if os.path.dirname(p) == cwd}
             extra = sorted(x for x in os.listdir(cwd) if x not in known)
